@@ -293,6 +293,16 @@ func corrCodec(prop string, outDir string, seed uint64, tier string, withEdits b
 		if csR != nil && err == nil && pan == nil {
 			csR.add("("+tc.tname+", "+coqStr(h)+", "+obsUnmarshalCoq(p, err, pan)+")", map[string]interface{}{"type": tc.t.String(), "hash": h, "kind": "C20 statement"})
 		}
+		// the same call again (another fresh target): Unmarshal's outcome is a function of the string and the type, not
+		// of an earlier parse of the same string
+		if len(csU.terms)%3 == 0 {
+			p2 := reflect.New(tc.t)
+			err2, pan2 := unmarshalObs(h, p2.Interface())
+			if a, b := obsUnmarshalCoq(p, err, pan), obsUnmarshalCoq(p2, err2, pan2); a != b {
+				rep.fail(map[string]interface{}{"type": tc.t.String(), "hash": h}, a, b, "a second Unmarshal of the same string into a fresh value of the same type has another outcome")
+			}
+			rep.bump("unmarshal_repeated")
+		}
 		rep.count("u:"+tc.tname+h, true)
 		rep.bump("unmarshal_" + kind)
 		if err == nil && pan == nil {
